@@ -142,6 +142,57 @@ def oracle(alg, ctx, desc, triples=True):
                 return
 
 
+def graded_pass(ctx):
+    """graded mode: every basis blade is the unit coefficient on its own key (inside its complete grade), a blade named
+    e_ij..k is the ordered product of its generators, blade products follow the table"""
+    from kingdon import Algebra
+    rng = ctx.rng
+    cfgs = [([1, 1], None), ([1, 1, 1], None), ([0, 1, 1], None), ([1, 1, 1, 1], None), ([0, 1, 1, 1], None), ([1, -1, 1, -1], None),
+            ([0, 1, 1], ["e", "e1", "e2", "e0", "e20", "e01", "e12", "e012"]),
+            ([0, 1, 1, 1], ["e", "e1", "e2", "e3", "e0", "e01", "e02", "e03", "e12", "e31", "e23", "e032", "e013", "e021", "e123", "e0123"]),
+            ([1, -1, 1], random_custom_basis(rng, 3)), ([1, 1, 0, -1], random_custom_basis(rng, 4))]
+    if not ctx.quick:
+        cfgs += [([1, 1, 1, 1, 1], None), ([0, 1, 1, 1, -1], None)]
+    for sig, basis in cfgs:
+        try:
+            alg = make_algebra(sig, None, basis, graded=True)
+        except Exception as e:
+            ctx.violation('construct-raises', {'sig': sig, 'basis': basis, 'graded': True}, 'an algebra', repr(e)[:200], key='construct')
+            continue
+        desc = {'sig': sig, 'basis': basis, 'graded': True}
+        ctx.count('cfg:graded')
+        S = alg.signs
+        def asdict(mv):
+            return {k: v for k, v in zip(mv.keys(), mv.values()) if v != 0}
+        for name, K in alg.canon2bin.items():
+            b = alg.blades[name]
+            ctx.case(('graded-blade', tuple(sig), name), tag='graded', sample=False)
+            if asdict(b) != {K: 1}:
+                ctx.violation('graded-blade', {**desc, 'name': name}, {K: 1}, asdict(b), key='graded:blade')
+                continue
+            g = len(name) - 1
+            if tuple(b.keys()) != tuple(alg.indices_for_grade[g]):
+                ctx.violation('graded-blade-keys', {**desc, 'name': name}, list(alg.indices_for_grade[g]), list(b.keys()), key='graded:blade-keys')
+            acc = None
+            for ch in name[1:]:
+                f = alg.blades['e' + ch]
+                acc = f if acc is None else acc * f
+            if acc is not None and asdict(acc) != {K: 1}:
+                ctx.violation('named-blade', {**desc, 'name': name}, {K: 1}, asdict(acc), key='graded:named-blade')
+        names = list(alg.canon2bin.items())
+        pairs_ = [(a, b) for a in names for b in names]
+        if len(pairs_) > 120:
+            pairs_ = rng.sample(pairs_, 120)
+        for (a, I), (b, J) in pairs_:
+            sgn = int(S[I, J])
+            exp = {I ^ J: sgn} if sgn else {}
+            got = asdict(alg.blades[a] * alg.blades[b])
+            ctx.case(('graded-product', tuple(sig), a, b), tag='graded', sample=False)
+            if got != exp:
+                ctx.violation('blade-product-vs-table', {**desc, 'a': a, 'b': b}, exp, got, key='graded:table')
+                break
+
+
 def run(ctx):
     from kingdon import Algebra
     ctx.rule = ('configurations: every signature ordering in {1,-1,0}^d (d<=3 all, d=4 sampled in quick; d<=6 all in thorough), '
@@ -237,12 +288,26 @@ def run(ctx):
             if S[I, J] * S[I ^ J, L] != S[J, L] * S[I, J ^ L]:
                 ctx.violation('associativity', {'sig': sig, 'I': I, 'J': J, 'L': L}, None, None, key='assoc')
                 break
+        # the Cayley table reported by a lazily filled algebra is that same (complete) table
+        cay = alg.cayley
+        ctx.case(('cayley-lazy', tuple(sig)), tag='cayley-lazy')
+        if len(cay) != 4 ** d:
+            ctx.violation('cayley', {'sig': sig, 'd': d}, f'{4 ** d} entries', f'{len(cay)} entries', key='cayley')
+        else:
+            for _ in range(2000):
+                I, J = ctx.rng.randrange(2 ** d), ctx.rng.randrange(2 ** d)
+                sgn = int(S[I, J])
+                exp = '0' if sgn == 0 else ('-' if sgn < 0 else '') + alg.bin2canon[I ^ J]
+                if cay[alg.bin2canon[I], alg.bin2canon[J]] != exp:
+                    ctx.violation('cayley', {'sig': sig, 'I': I, 'J': J}, exp, cay[alg.bin2canon[I], alg.bin2canon[J]], key='cayley')
+                    break
         for j in range(d):
             if S[2 ** j, 2 ** j] != sig[j]:
                 ctx.violation('generator-square', {'sig': sig, 'gen': j}, sig[j], int(S[2 ** j, 2 ** j]), key='relations')
             for k in range(j):
                 if S[2 ** j, 2 ** k] != -S[2 ** k, 2 ** j] or S[2 ** j, 2 ** k] == 0:
                     ctx.violation('anticommute', {'sig': sig, 'gens': [j, k]}, None, None, key='relations')
+    graded_pass(ctx)
     out = ctx.drive(lines)
     if out is not None:
         nbad = 0
